@@ -77,7 +77,7 @@ class _CodeValidator(ast.NodeVisitor):
     self.verify(
         node,
         permissions.CodePermission.ASSIGN,
-        (ast.Assign),
+        (ast.Assign, ast.AugAssign, ast.AnnAssign, ast.NamedExpr),
         'Assignment is not allowed.',
     )
 
@@ -99,7 +99,9 @@ class _CodeValidator(ast.NodeVisitor):
     self.verify(
         node,
         permissions.CodePermission.EXCEPTION,
-        (ast.Try, ast.Raise, ast.Assert),
+        # `ast.TryStar` (`except*`) exists from Python 3.11 on.
+        (ast.Try, ast.Raise, ast.Assert)
+        + ((ast.TryStar,) if hasattr(ast, 'TryStar') else ()),
         'Exception is not allowed.',
     )
 
